@@ -137,7 +137,7 @@ func TestC15(t *testing.T) {
 		Level: "exploration",
 		Rule: "rapid draws histories (1-20 transactions, 1-3 operations) of create / update / patch / delete issued through the parent store or the child store over ids shared by both, for a plain child store (2/3) or an extended one (1/3); the parent has a unique name index and a set index on roles. " +
 			"After every transaction FindById / LoadById / QueryIds / IterateIds / IterateValidIds / IsEntityPresent through both stores must return exactly the populations the property states, shared fields and child fields must equal the model, the parent's indexes must mirror every entity (child or not), parent constraints must reject child creates, and after a committed delete the id occurs nowhere in the file. " +
-			"Also generated: delete-where through either store, an optional second child store, the child index on the earlier or the later child store, hostile shared-field values, system contexts. " +
+			"Also generated: delete-where through either store, an optional second child store, the child index on the earlier or the later child store, hostile shared-field values, system contexts. Also: every child store is queried through a caller-supplied cursor over all parent ids and through an inherited map element (kit.CheckKids). " +
 			"Non-trivial history: plain and child entities coexist and some operation on an existing entity is routed through the 'other' store. Distinct by hash of the history JSON.",
 		Assumptions: []string{
 			"the update mapper registered by the harness routes by IsEntityPresent and copies the shared fields of the entity being written (the repository's test mapper re-loads the stored entity and would make updates through the parent a no-op)",
